@@ -26,7 +26,8 @@ EXTENDS Integers, Sequences, FiniteSets, TLC
 
 None == "-"
 PoptUniverse == {"a", "b", "c"}
-SubChoices == {"a", "b", "c", "d"}       \* the subproject's own (yielding) popt: fixed
+SubChoices == {"a", "b", "c", "d"}       \* the subproject's own (yielding) popt: initial choices (its option file is edited too)
+SubDefault == "d"                        \* its declared default, in every choice list the edits use
 DlValues == {"shared", "static", "both"}
 DlDefault == "shared"
 XDefault == "xd"
@@ -43,20 +44,20 @@ FlagParent == "false"                    \* the top-level flag option is never c
 EmptyCmd == [k \in Keys |-> None]
 
 \* the option file of the top-level project
-InitFile == [ch |-> {"a", "b", "c"}, def |-> "a", x |-> FALSE, lr |-> {"2", "5", "8"}]
+InitFile == [ch |-> {"a", "b", "c"}, def |-> "a", x |-> FALSE, lr |-> {"2", "5", "8"}, sch |-> SubChoices]
 
-NoDir == [exists |-> FALSE, v |-> None, ch |-> {}, x |-> None, dl |-> None, subdl |-> None, sp |-> None, sf |-> None, lv |-> None, lr |-> {}, ar |-> None, cmd |-> EmptyCmd]
+NoDir == [exists |-> FALSE, v |-> None, ch |-> {}, x |-> None, dl |-> None, subdl |-> None, sp |-> None, sf |-> None, lv |-> None, lr |-> {}, ar |-> None, sch |-> {}, cmd |-> EmptyCmd]
 
 \* ---- assignments -D ------------------------------------------------------------
 \* D: a function from a subset of Keys to values
-ValidFor(ch, hasx, lr, D) ==
+ValidFor(ch, hasx, lr, sch, D) ==
     /\ ("popt" \in DOMAIN D => D["popt"] \in ch)
     /\ ("level" \in DOMAIN D => D["level"] \in lr)
     /\ ("arr" \in DOMAIN D => D["arr"] \in ArrValues)
     /\ ("xopt" \in DOMAIN D => hasx)
     /\ ("dl" \in DOMAIN D => D["dl"] \in DlValues)
     /\ ("subdl" \in DOMAIN D => D["subdl"] \in DlValues)
-    /\ ("subpopt" \in DOMAIN D => D["subpopt"] \in SubChoices)
+    /\ ("subpopt" \in DOMAIN D => D["subpopt"] \in sch)
     /\ ("subflag" \in DOMAIN D => D["subflag"] \in {"true", "false"})
 
 Apply(st, D) ==
@@ -75,7 +76,7 @@ CmdAsD(cmd) == [k \in {k \in Keys : cmd[k] # None} |-> cmd[k]]
 \* a configuration made from scratch: current defaults of the option file, then the given command line
 Fresh(file, cmd) ==
     Apply([exists |-> TRUE, v |-> file.def, ch |-> file.ch, x |-> IF file.x THEN XDefault ELSE None,
-           dl |-> DlDefault, subdl |-> None, sp |-> None, sf |-> None, lv |-> LevelDefault, lr |-> file.lr, ar |-> ArrDefault, cmd |-> EmptyCmd], CmdAsD(cmd))
+           dl |-> DlDefault, subdl |-> None, sp |-> None, sf |-> None, lv |-> LevelDefault, lr |-> file.lr, ar |-> ArrDefault, sch |-> file.sch, cmd |-> EmptyCmd], CmdAsD(cmd))
 
 \* the option file is read again: a new option gets its default, a removed one vanishes, a changed choice
 \* list keeps the old value when still valid and otherwise falls back to the new default
@@ -84,7 +85,11 @@ Sync(st, file) ==
                !.v = IF file.ch = st.ch \/ st.v \in file.ch THEN st.v ELSE file.def,
                !.x = IF ~file.x THEN None ELSE IF st.x = None THEN XDefault ELSE st.x,
                !.lr = file.lr,
-               !.lv = IF st.lv \in file.lr THEN st.lv ELSE LevelDefault]
+               !.lv = IF st.lv \in file.lr THEN st.lv ELSE LevelDefault,
+               \* the subproject's option file: an explicit value the user gave the subproject stays explicit - kept when
+               \* still a choice, else the subproject's new default; a yielding option keeps yielding
+               !.sch = file.sch,
+               !.sp = IF st.sp = None \/ st.sp \in file.sch THEN st.sp ELSE SubDefault]
 
 SameValues(s, t) == s.v = t.v /\ s.x = t.x /\ s.dl = t.dl /\ s.subdl = t.subdl /\ s.sp = t.sp /\ s.sf = t.sf /\ s.lv = t.lv /\ s.ar = t.ar
 
@@ -98,22 +103,23 @@ EditFile(file, e) ==
       [] e.t = "removex" -> [file EXCEPT !.x = FALSE]
       [] e.t = "choices" -> [file EXCEPT !.ch = e.ch, !.def = e.def]
       [] e.t = "default" -> [file EXCEPT !.def = e.def]
+      [] e.t = "subchoices" -> [file EXCEPT !.sch = e.ch]
       [] e.t = "range" -> [file EXCEPT !.lr = e.ch]        \* e.ch: the probe values the new [min, max] admits
 
 \* the recorded command line can be replayed on the current option file
-CmdFits(file, cmd) == ValidFor(file.ch, file.x, file.lr, CmdAsD(cmd))
+CmdFits(file, cmd) == ValidFor(file.ch, file.x, file.lr, file.sch, CmdAsD(cmd))
 
 \* is the event enabled (does the model generate it / accept it as meaningful) in this state?
 Enabled(file, st, ev) ==
-    CASE ev.a = "Setup"       -> ~st.exists /\ ev.ok /\ ValidFor(file.ch, file.x, file.lr, ev.D)
+    CASE ev.a = "Setup"       -> ~st.exists /\ ev.ok /\ ValidFor(file.ch, file.x, file.lr, file.sch, ev.D)
       [] ev.a = "SetupFail"   -> ~st.exists
-      [] ev.a = "Configure"   -> st.exists /\ ValidFor(st.ch, st.x # None, st.lr, ev.D) /\ ValidFor(file.ch, file.x, file.lr, ev.D)
+      [] ev.a = "Configure"   -> st.exists /\ ValidFor(st.ch, st.x # None, st.lr, st.sch, ev.D) /\ ValidFor(file.ch, file.x, file.lr, file.sch, ev.D)
       [] ev.a = "ConfigureFail" -> st.exists
       \* a value outside the range the option file declares now: `meson configure` re-reads an edited option file
       \* before it looks at -D, so the value must be rejected
       [] ev.a = "ConfigureBad" -> st.exists /\ "level" \in DOMAIN ev.D /\ ev.D["level"] \notin file.lr
       [] ev.a = "ConfigureU"  -> st.exists /\ (ev.k \in {"subpopt", "subflag"} \/ (ev.k = "subdl" /\ st.subdl # None))
-      [] ev.a = "Reconfigure" -> st.exists /\ ValidFor(st.ch, st.x # None, st.lr, ev.D) /\ ValidFor(file.ch, file.x, file.lr, ev.D)
+      [] ev.a = "Reconfigure" -> st.exists /\ ValidFor(st.ch, st.x # None, st.lr, st.sch, ev.D) /\ ValidFor(file.ch, file.x, file.lr, file.sch, ev.D)
       [] ev.a = "ReconfigureFail" -> st.exists
       [] ev.a = "Wipe"        -> st.exists /\ CmdFits(file, st.cmd)
       [] ev.a = "Edit"        -> ev.e.t # None /\ EditFile(file, ev.e) # file /\ EditFile(file, ev.e).def \in EditFile(file, ev.e).ch
@@ -142,7 +148,7 @@ Proj(st) == [exists |-> st.exists, v |-> st.v, ch |-> st.ch, x |-> st.x, dl |-> 
              subdl |-> IF st.subdl = None THEN st.dl ELSE st.subdl,
              sp |-> IF st.sp = None THEN st.v ELSE st.sp,
              sf |-> IF ~st.exists THEN None ELSE IF st.sf = None THEN FlagParent ELSE st.sf,
-             lv |-> st.lv, ar |-> st.ar, cmd |-> st.cmd]
+             lv |-> st.lv, ar |-> st.ar, sch |-> st.sch, cmd |-> st.cmd]
 
 \* ---- event alphabets ---------------------------------------------------------------
 Single(k, v) == (k :> v)
@@ -151,6 +157,7 @@ ChoiceEdits == { [t |-> "choices", ch |-> {"a", "b"}, def |-> "a"], [t |-> "choi
                  [t |-> "choices", ch |-> {"a", "b", "c"}, def |-> "a"] }
 Edits == { [t |-> "addx", ch |-> {}, def |-> None], [t |-> "removex", ch |-> {}, def |-> None] } \cup ChoiceEdits
          \cup { [t |-> "default", ch |-> {}, def |-> "b"], [t |-> "default", ch |-> {}, def |-> "a"] }
+         \cup { [t |-> "subchoices", ch |-> r, def |-> None] : r \in {{"a", "b", "d"}, {"a", "c", "d"}, {"a", "b", "c", "d"}} }
          \cup { [t |-> "range", ch |-> r, def |-> None] : r \in {{"5", "8"}, {"2", "5"}, {"5"}, {"2", "5", "8"}} }
 
 \* every single assignment (and no assignment); the model checker explores all of them
@@ -170,10 +177,10 @@ FullAlphabet ==
 
 \* the smaller alphabet whose histories are all replayed through the real CLI
 ReplayAlphabet ==
-    {Ev("Setup", D, None, NoEdit, TRUE) : D \in {Empty, Single("popt", "b"), Single("popt", "c"), Single("subdl", "static"), Single("subdl", "shared"), Single("subpopt", "a"), Single("level", "2")}}
+    {Ev("Setup", D, None, NoEdit, TRUE) : D \in {Empty, Single("popt", "b"), Single("popt", "c"), Single("subdl", "shared"), Single("subpopt", "a"), Single("subpopt", "b"), Single("level", "2")}}
     \cup {Ev("Configure", D, None, NoEdit, TRUE) :
             D \in {Single("popt", "c"), Single("dl", "both"), Single("subdl", "static"), Single("subdl", "shared"),
-                   Single("subpopt", "d"), Single("xopt", "xv"), Single("xopt", ""), Single("subflag", "true"), Single("subflag", "false"),
+                   Single("subpopt", "d"), Single("xopt", "xv"), Single("xopt", ""), Single("subflag", "true"),
                    Single("level", "8"), Single("arr", "")}}
     \cup {Ev("Reconfigure", D, None, NoEdit, TRUE) : D \in {Empty, Single("popt", "a")}}
     \cup {Ev("ConfigureU", Empty, k, NoEdit, TRUE) : k \in {"subdl", "subpopt", "subflag"}}
@@ -181,7 +188,8 @@ ReplayAlphabet ==
     \cup {Ev("Edit", Empty, None, e, TRUE) :
             e \in { [t |-> "addx", ch |-> {}, def |-> None], [t |-> "removex", ch |-> {}, def |-> None],
                     [t |-> "choices", ch |-> {"a", "b"}, def |-> "a"], [t |-> "default", ch |-> {}, def |-> "b"],
-                    [t |-> "range", ch |-> {"5", "8"}, def |-> None], [t |-> "range", ch |-> {"2", "5"}, def |-> None] }}
+                    [t |-> "range", ch |-> {"5", "8"}, def |-> None], [t |-> "range", ch |-> {"2", "5"}, def |-> None],
+                    [t |-> "subchoices", ch |-> {"a", "b", "d"}, def |-> None], [t |-> "subchoices", ch |-> {"a", "c", "d"}, def |-> None] }}
     \cup {Ev("SetupFail", Empty, None, NoEdit, FALSE)}
     \cup {Ev("ConfigureFail", Single("dl", "static"), None, NoEdit, FALSE)}
     \cup {Ev("ConfigureBad", Single("level", v), None, NoEdit, FALSE) : v \in {"2", "8"}}
